@@ -50,6 +50,8 @@ pub enum CtrOp {
     GroupSend(u32),
     Emit(u32),
     CheckIn(u32),
+    /// Jump the Check-In counter forward (`Icd::invalidate_counter`), persisting as the interface says
+    Invalidate(u32),
     /// Crash between two operations
     Restart,
 }
@@ -163,7 +165,7 @@ async fn script_task<D: EventEmitter>(ctx: &NodeCtx, matter: &Matter<'_>, crypto
         };
         let total = match op {
             CtrOp::GroupSend(n) | CtrOp::Emit(n) | CtrOp::CheckIn(n) => *n,
-            CtrOp::Restart => 1,
+            CtrOp::Restart | CtrOp::Invalidate(_) => 1,
         };
         if done >= total {
             ctx.pos.set((pos + 1, 0));
@@ -242,6 +244,18 @@ async fn script_task<D: EventEmitter>(ctx: &NodeCtx, matter: &Matter<'_>, crypto
                 }
                 if done % 64 == 0 {
                     Timer::after(Duration::from_micros(10)).await;
+                }
+            }
+            CtrOp::Invalidate(delta) => {
+                if checkin_ok {
+                    if icd.invalidate_counter(*delta) {
+                        // "persist_counter must run before the device restarts"
+                        ctx.persist_due.set(true);
+                        if icd.persist_counter(ctx.kv.clone(), &mut buf).is_ok() {
+                            ctx.persist_due.set(false);
+                        }
+                    }
+                    note(ctx, "checkin_counter_invalidated");
                 }
             }
             CtrOp::Restart => {
@@ -483,7 +497,13 @@ pub fn gen_cfg(knobs: &CtrKnobs) -> CtrCfg {
         let op = match (tape::biased(4, 700) + focus) % 4 {
             0 => CtrOp::GroupSend(if big { 900 + tape::choose(400) } else { 1 + tape::biased(40, 600) }),
             1 => CtrOp::Emit(if big { 9_000 + tape::choose(3_000) } else { 1 + tape::biased(60, 600) }),
-            2 => CtrOp::CheckIn(if big { 200 + tape::choose(400) } else { 1 + tape::biased(40, 600) }),
+            2 => {
+                if tape::biased(4, 300) == 1 {
+                    CtrOp::Invalidate(1 + tape::choose(24))
+                } else {
+                    CtrOp::CheckIn(if big { 200 + tape::choose(400) } else { 1 + tape::biased(40, 600) })
+                }
+            }
             _ => {
                 if knobs.crashes {
                     CtrOp::Restart
